@@ -526,6 +526,18 @@ impl Relayer {
                 }
             }
 
+            // `into_view` rebuilds the proposals hash and the extra hash of the header from the body as well, so the
+            // block is the announced one only if its header comes out unchanged
+            if block.hash() != compact_block.calc_header_hash() {
+                return ReconstructionResult::Error(
+                    StatusCode::CompactBlockHasInvalidHeader.with_context(format!(
+                        "reconstructed block hash({}) != compact block header hash({})",
+                        block.hash(),
+                        compact_block.calc_header_hash(),
+                    )),
+                );
+            }
+
             ReconstructionResult::Block(block)
         } else {
             let missing_indexes: Vec<usize> = block_transactions
